@@ -142,6 +142,27 @@ func (c *Ctx) ruleM3(ruleShape, ruleSucc string) {
 				}
 			}
 			c.Check(ruleSucc, key, succOK, r.Pos(), "%s", swhy)
+			// the value travels with the flag: where the flag handed on is a child's, and nothing else,
+			// the value handed on is that child's value (a `return` deep inside ends the rule *with its value*)
+			if cn := ""; passCall != nil {
+				cn = fnName(passCall.Call.StaticCallee())
+				if cn == "BreakStmt.Evaluate" || cn == "ContinueStmt.Evaluate" {
+					passCall = nil // their flag marks a sentinel travelling as the error; they have no value
+				}
+			}
+			if passCall != nil && len(flags) == 1 && !flags[0].Outside {
+				vOK, vwhy := true, "the child's value is passed on with its flag"
+				for _, vv := range x.PossibleValues(r.Results[0]) {
+					if vv.Outside {
+						continue
+					}
+					ex, isEx := vv.V.(*ssa.Extract)
+					if vv.V == nil || !isEx || ex.Index != 0 || ex.Tuple != ssa.Value(passCall) {
+						vOK, vwhy = false, "the returned-flag of "+fnName(passCall.Call.StaticCallee())+" is passed on, but the value passed on is "+x.Describe(vv.V)+", not that call's: a return inside the child would end the rule without its value"
+					}
+				}
+				c.Check(ruleShape[:2]+"-value-travels-with-flag", key, vOK, r.Pos(), "%s", vwhy)
+			}
 		})
 	}
 }
